@@ -1269,6 +1269,76 @@ def check_merge_order(rep, rule):
 
 
 # ---------------------------------------------------------------------------------------------
+# R01.a / R04.a: the name sources BoundRoute.__init__ hands to check_middlewares / make_middleware_chain
+# ---------------------------------------------------------------------------------------------
+
+def eval_bind_sources(repo, expr, before_stmt):
+    """Value of a set- / dict-of-sets-valued expression of BoundRoute.__init__ over the atoms URL (names bound by the
+    path pattern), BUILTINS (RESERVED_ARGS) and RES (keys of the merged resources), evaluated just before
+    ``before_stmt``.  The path converters / the merged resources may be referred to through ``self`` or through the
+    local that was stored there.  -> (universe, plain value); Unmodelled when the expression leaves the subset."""
+    route = repo.mod(ROUTE)
+    bi = route.func('BoundRoute.__init__')
+    uni = Universe(['URL', 'BUILTINS', 'RES'])
+    texts = {'URL': {'self.converters', 'self.path_args'}, 'RES': {'self.resources'}}
+    for s_ in stmts_of(bi.node):
+        if isinstance(s_, ast.Assign) and len(s_.targets) == 1 and isinstance(s_.value, ast.Name) and \
+                len(assigned_value(bi.node, s_.value.id)) == 1 and s_.value.id not in bi.params():
+            t = norm(s_.targets[0])
+            if t == 'self.converters':
+                texts['URL'].add(s_.value.id)
+            elif t == 'self.resources':
+                texts['RES'].add(s_.value.id)
+    for k in list(texts):
+        texts[k] |= set(t + '.keys()' for t in texts[k])
+
+    def atom_of(e):
+        t = norm(e)
+        for k, ts in texts.items():
+            if t in ts:
+                return uni[k]
+        if t == 'RESERVED_ARGS' and repo.try_fold(e, route) is not None:
+            return uni['BUILTINS']
+        return None
+
+    def model(it, e):
+        if isinstance(e, ast.Call) and call_name(e) in ('set', 'frozenset', 'list', 'tuple', 'sorted') and len(e.args) == 1 and not e.keywords:
+            return atom_of(e.args[0])
+        if isinstance(e, ast.Name) and e.id == 'RESERVED_ARGS':
+            return atom_of(e)
+        return None
+    it = SetInterp(uni, model=model)
+    # backward slice: execute only the simple assignments the expression (transitively) depends on
+    need = set(n.id for n in ast.walk(expr) if isinstance(n, ast.Name))
+    prior = []
+    for s_ in stmts_of(bi.node):
+        if s_ is before_stmt:
+            break
+        prior.append(s_)
+    chosen = []
+    for s_ in reversed(prior):
+        if isinstance(s_, (ast.Assign, ast.AugAssign)):
+            tgs = s_.targets if isinstance(s_, ast.Assign) else [s_.target]
+            names = set()
+            for t in tgs:
+                for x in (t.elts if isinstance(t, (ast.Tuple, ast.List)) else [t]):
+                    if isinstance(x, ast.Name):
+                        names.add(x.id)
+                    elif isinstance(x, ast.Starred) and isinstance(x.value, ast.Name):
+                        names.add(x.value.id)
+            if names & need:
+                chosen.append(s_)
+                need |= set(n.id for n in ast.walk(s_.value) if isinstance(n, ast.Name))
+        elif isinstance(s_, ast.Expr) and isinstance(s_.value, ast.Call) and isinstance(s_.value.func, ast.Attribute) and \
+                isinstance(s_.value.func.value, ast.Name) and s_.value.func.value.id in need:
+            chosen.append(s_)
+            need |= set(n.id for n in ast.walk(s_.value) if isinstance(n, ast.Name))
+    for s_ in reversed(chosen):
+        it.exec_stmt(s_)
+    return uni, it.eval(expr)
+
+
+# ---------------------------------------------------------------------------------------------
 # R02.b (inject), R02.c (layers), R02.d (identity)
 # ---------------------------------------------------------------------------------------------
 
